@@ -133,6 +133,7 @@ def _child(mod, prop, scenario, tape_values, wfd):
             return
         done.append(reason)
         S.active = False
+        dump = S.thread_dump() if reason != "main-done" else []
         try:
             h.ev("end-of-run", reason=reason)
             violations, shape, nontrivial = mod.check(h, reason)
@@ -157,6 +158,7 @@ def _child(mod, prop, scenario, tape_values, wfd):
                 "nontrivial": bool(nontrivial),
                 "events": h.events[-400:] if violations else h.events[-40:],
                 "log_tail": h.log_records[-30:] if violations else [],
+                "thread_dump": dump if violations else [],
             }
         except BaseException:
             res = {"harness_error": "finalize failed: " + traceback.format_exc()[-3000:]}
